@@ -4,7 +4,8 @@
 From SPV Require Export Base.Str Model.OptStr Model.Help.
 
 (* a field is exposed on the command line unless it is init=False or declared cmd=False *)
-Definition spec_exposed (f : hfield) : bool := hf_init f && hf_cmd f.
+Definition spec_exposed (f : hfield) : bool :=
+  hf_init f && match hf_cmd f with Some false => false | _ => true end.
 
 (* the effective default: a default coming from a default instance / set_defaults / a config file wins over the
    definition's (how those sources are layered among themselves is property C06) *)
